@@ -186,6 +186,24 @@ type kvObs struct {
 func itoa(i int) string { return string([]byte{byte('0' + i/10), byte('0' + i%10)}) }
 
 func (w *kvWorld) observe(o *kvObs) {
+	// Iterators are opened FIRST, the point reads come next and only then are the iterators walked:
+	// reads do not change the state, so the single ordered map gives the same iteration whatever
+	// happens between NewIterator and First (an iterator must not borrow a buffer that reads reuse).
+	type itPair struct {
+		c, o interface {
+			First() bool
+			Next() bool
+			Key() []byte
+			Value() []byte
+			Error() error
+			Release()
+		}
+	}
+	its := make([]itPair, len(w.pfx))
+	for pi, p := range w.pfx {
+		its[pi].c = w.cache.NewIterator(p)
+		its[pi].o = w.ovl.NewIterator(append([]byte{byte(common.ST_STORAGE)}, p...))
+	}
 	for i := range w.keys {
 		v, err := w.cache.Get(w.keys[i])
 		if err != nil {
@@ -198,9 +216,9 @@ func (w *kvWorld) observe(o *kvObs) {
 		}
 		o.ReadO = append(o.ReadO, string(v2))
 	}
-	for pi, p := range w.pfx {
+	for pi := range w.pfx {
 		io := kvIterObs{P: w.in.Prefixes[pi], C: [][]string{}, O: [][]string{}}
-		it := w.cache.NewIterator(p)
+		it := its[pi].c
 		for has := it.First(); has; has = it.Next() {
 			io.C = append(io.C, []string{itoa(w.rank(it.Key())), string(it.Value())})
 		}
@@ -208,7 +226,7 @@ func (w *kvWorld) observe(o *kvObs) {
 			o.Err += "cacheIter:" + it.Error().Error() + ";"
 		}
 		it.Release()
-		it2 := w.ovl.NewIterator(append([]byte{byte(common.ST_STORAGE)}, p...))
+		it2 := its[pi].o
 		for has := it2.First(); has; has = it2.Next() {
 			k := it2.Key()
 			io.O = append(io.O, []string{itoa(w.rank(k[1:])), string(it2.Value())})
